@@ -183,6 +183,8 @@ async fn run(
         };
 
         trace!("Processing store action {action:?} …");
+        #[cfg(feature = "verif")]
+        crate::verif::perturb("redb-writer-before-action").await;
 
         if let Err(e) = match action {
             StoreAction::Update(key, value) => {
